@@ -3,7 +3,8 @@
 //   h3_named scan <seed> <tier 0|1>        the real scanner functions (MacroMetadata::_contains_named_args,
 //                                          BackendWorker::_process_named_args_format_message) on generated templates
 //   h3_named e2e <seed> <trials> <scratch-dir>   the real backend single-threaded (ManualBackendWorker) with a
-//                                          recording sink and the real JsonFileSink, ~45 compile-time templates
+//                                          recording sink and the real JsonFileSink, 69 compile-time call sites
+//                                          (41 LOG_ templates, LOGJ_ with every argument count 0..26, one qualified name)
 //   h3_named replay <file> <scratch-dir>   lines "scan <hexT> [pieces]" and/or an e2e trace (e2e-init / san /
 //                                          cache-clear / log <idx> <args> / cache-dump)
 //
@@ -584,6 +585,27 @@ static void build_table()
 }
 static void build_table_extra()
 {
+  static std::vector<std::string> keep; // storage for the generated literals
+  keep.reserve(64);
+  for (int n = 4; n <= 25; ++n)
+  {
+    std::string lit = "n", pos = "n", args;
+    std::vector<std::string> names, specs;
+    for (int k = 0; k < n; ++k)
+    {
+      std::string nm = "a" + std::to_string(k);
+      lit += (k ? ", {" : " {") + nm + "}";
+      pos += (k ? ", {}" : " {}");
+      names.push_back(nm);
+      specs.push_back("");
+      args += (k ? " i" : "i") + std::to_string(k % 10);
+    }
+    keep.push_back(lit);
+    char const* l = keep.back().c_str();
+    keep.push_back(pos);
+    char const* p = keep.back().c_str();
+    g_tpls.push_back(Tpl{60 + n, l, p, names, specs, args, true});
+  }
   // LOGJ_ with an argument that is not a plain identifier (finding candidate F11c): the user means key `ns_q::val`
   g_tpls.push_back(Tpl{55, "qualified {ns_q::val}", "qualified {}", {"ns_q::val"}, {""}, "i0", true});
 }
@@ -690,6 +712,39 @@ static void do_log(int id, V const& v)
     break;
   }
   default: break;
+  }
+  // every LOGJ_ arity between the ones above (0..3) and the limit (26): call sites 60+n
+  {
+    int const a0 = v.i[0], a1 = v.i[1], a2 = v.i[2], a3 = v.i[3], a4 = v.i[4], a5 = v.i[5], a6 = v.i[6], a7 = v.i[7],
+              a8 = v.i[8], a9 = v.i[9], a10 = v.i[0], a11 = v.i[1], a12 = v.i[2], a13 = v.i[3], a14 = v.i[4],
+              a15 = v.i[5], a16 = v.i[6], a17 = v.i[7], a18 = v.i[8], a19 = v.i[9], a20 = v.i[0], a21 = v.i[1],
+              a22 = v.i[2], a23 = v.i[3], a24 = v.i[4];
+    switch (id)
+    {
+  case 64: g_line_of[64] = __LINE__; LOGJ_INFO(lg, "n", a0, a1, a2, a3); break;
+  case 65: g_line_of[65] = __LINE__; LOGJ_INFO(lg, "n", a0, a1, a2, a3, a4); break;
+  case 66: g_line_of[66] = __LINE__; LOGJ_INFO(lg, "n", a0, a1, a2, a3, a4, a5); break;
+  case 67: g_line_of[67] = __LINE__; LOGJ_INFO(lg, "n", a0, a1, a2, a3, a4, a5, a6); break;
+  case 68: g_line_of[68] = __LINE__; LOGJ_INFO(lg, "n", a0, a1, a2, a3, a4, a5, a6, a7); break;
+  case 69: g_line_of[69] = __LINE__; LOGJ_INFO(lg, "n", a0, a1, a2, a3, a4, a5, a6, a7, a8); break;
+  case 70: g_line_of[70] = __LINE__; LOGJ_INFO(lg, "n", a0, a1, a2, a3, a4, a5, a6, a7, a8, a9); break;
+  case 71: g_line_of[71] = __LINE__; LOGJ_INFO(lg, "n", a0, a1, a2, a3, a4, a5, a6, a7, a8, a9, a10); break;
+  case 72: g_line_of[72] = __LINE__; LOGJ_INFO(lg, "n", a0, a1, a2, a3, a4, a5, a6, a7, a8, a9, a10, a11); break;
+  case 73: g_line_of[73] = __LINE__; LOGJ_INFO(lg, "n", a0, a1, a2, a3, a4, a5, a6, a7, a8, a9, a10, a11, a12); break;
+  case 74: g_line_of[74] = __LINE__; LOGJ_INFO(lg, "n", a0, a1, a2, a3, a4, a5, a6, a7, a8, a9, a10, a11, a12, a13); break;
+  case 75: g_line_of[75] = __LINE__; LOGJ_INFO(lg, "n", a0, a1, a2, a3, a4, a5, a6, a7, a8, a9, a10, a11, a12, a13, a14); break;
+  case 76: g_line_of[76] = __LINE__; LOGJ_INFO(lg, "n", a0, a1, a2, a3, a4, a5, a6, a7, a8, a9, a10, a11, a12, a13, a14, a15); break;
+  case 77: g_line_of[77] = __LINE__; LOGJ_INFO(lg, "n", a0, a1, a2, a3, a4, a5, a6, a7, a8, a9, a10, a11, a12, a13, a14, a15, a16); break;
+  case 78: g_line_of[78] = __LINE__; LOGJ_INFO(lg, "n", a0, a1, a2, a3, a4, a5, a6, a7, a8, a9, a10, a11, a12, a13, a14, a15, a16, a17); break;
+  case 79: g_line_of[79] = __LINE__; LOGJ_INFO(lg, "n", a0, a1, a2, a3, a4, a5, a6, a7, a8, a9, a10, a11, a12, a13, a14, a15, a16, a17, a18); break;
+  case 80: g_line_of[80] = __LINE__; LOGJ_INFO(lg, "n", a0, a1, a2, a3, a4, a5, a6, a7, a8, a9, a10, a11, a12, a13, a14, a15, a16, a17, a18, a19); break;
+  case 81: g_line_of[81] = __LINE__; LOGJ_INFO(lg, "n", a0, a1, a2, a3, a4, a5, a6, a7, a8, a9, a10, a11, a12, a13, a14, a15, a16, a17, a18, a19, a20); break;
+  case 82: g_line_of[82] = __LINE__; LOGJ_INFO(lg, "n", a0, a1, a2, a3, a4, a5, a6, a7, a8, a9, a10, a11, a12, a13, a14, a15, a16, a17, a18, a19, a20, a21); break;
+  case 83: g_line_of[83] = __LINE__; LOGJ_INFO(lg, "n", a0, a1, a2, a3, a4, a5, a6, a7, a8, a9, a10, a11, a12, a13, a14, a15, a16, a17, a18, a19, a20, a21, a22); break;
+  case 84: g_line_of[84] = __LINE__; LOGJ_INFO(lg, "n", a0, a1, a2, a3, a4, a5, a6, a7, a8, a9, a10, a11, a12, a13, a14, a15, a16, a17, a18, a19, a20, a21, a22, a23); break;
+  case 85: g_line_of[85] = __LINE__; LOGJ_INFO(lg, "n", a0, a1, a2, a3, a4, a5, a6, a7, a8, a9, a10, a11, a12, a13, a14, a15, a16, a17, a18, a19, a20, a21, a22, a23, a24); break;
+    default: break;
+    }
   }
 }
 
